@@ -12,11 +12,15 @@ git checkout -q -- .
 demo=verifdemo$n
 [ -d $demo ] || cp -r $seed/demo $demo
 log=/tmp/validate-$prop-$n.log; : > $log
+# demos are Go tests, or a main package to run when the directory holds no test file
+demo_cmd() {
+  if ls $demo/*_test.go >/dev/null 2>&1; then go test -count=1 ./$demo/...; else go run ./$demo; fi
+}
 # without the change: demo passes
-go test -count=1 ./$demo/... >> $log 2>&1; without=$?
+demo_cmd >> $log 2>&1; without=$?
 git apply $seed/patch.diff || { echo "$prop/$n: patch does not apply"; exit 1; }
 go build $(go list ./... | grep -v '/httpapi/test$' | grep -v verifdemo) >> $log 2>&1; build=$?
-go test -count=1 ./$demo/... >> $log 2>&1; with=$?
+demo_cmd >> $log 2>&1; with=$?
 # repo suite with the change (the suite rewrites fixtures: run it last, then restore)
 go test -vet=off -count=1 -json $(go list ./... | grep -v verifdemo) > /tmp/validate-$prop-$n.suite.json 2>>$log
 suite=$(python3 - /tmp/validate-$prop-$n.suite.json <<'PY'
